@@ -259,6 +259,11 @@ def run_case(case):
                      'outcome': (['err', 'bad-again-%d' % i] if i == bad
                                  else ['ok', 'it-%d' % i])}
                     for i in range(n)]
+                # the operator restarts several finished items himself:
+                # the limit governs what the with-items task starts, not
+                # this (the monitor's concurrency clause is switched off
+                # from here on)
+                mon.conc = None
                 for ct in sorted(inner, key=lambda r: r['id']):
                     w.op_rerun(ct['id'], reset=True)
                 rerun_state['h'] = True
